@@ -39,6 +39,7 @@ import (
 	"github.com/mithrandie/csvq/lib/parser"
 	"github.com/mithrandie/csvq/lib/query"
 	"github.com/mithrandie/csvq/lib/value"
+	"github.com/mithrandie/ternary"
 
 	"verifharness/hc"
 )
@@ -64,7 +65,8 @@ type Branch struct {
 }
 
 type Stmt struct {
-	K        byte // D A X P I W E Z B K Q R F Y; temporary table X: V declare, N insert Rows rows, L delete all, U dispose
+	K byte // D A X P I W E Z B K Q R F Y; temporary table X: V declare, N insert Rows rows, L delete all, U dispose;
+	// cursor Cur with state: C declare (rows 10*Rows + 0,1,2), O open, S close, H fetch into @X
 	Form     byte // 'Z' (statements executed indirectly, in the current block): 's' SOURCE file, 'e' EXECUTE 'text', 'p' EXECUTE prepared
 	Decl     bool // 'E': WHILE VAR @x IN …
 	Rows     int  // 'E': the cursor yields the rows 0 … Rows-1
@@ -80,19 +82,22 @@ type Stmt struct {
 }
 
 const (
-	poolTables = 2 // t0, t1: temporary tables; in the model the variable tableVar+k holding the number of rows
-	tableVar   = 100
-	poolVars   = 4 // @v0..@v3: the names random statements declare, assign, dispose
-	budgetVar  = 4 // @v4: first parameter of every function, the decreasing call budget
-	firstCount = 5 // @v5…: loop counters, one per WHILE statement
-	poolFns    = 4
-	maxDepth   = 6
-	fuel       = 200000
+	poolCursors = 2 // cr0, cr1: cursors with state (closed / open at a position); in the model the variable cursorVar+k
+	cursorVar   = 200
+	poolTables  = 2 // t0, t1: temporary tables; in the model the variable tableVar+k holding the number of rows
+	tableVar    = 100
+	poolVars    = 4 // @v0..@v3: the names random statements declare, assign, dispose
+	budgetVar   = 4 // @v4: first parameter of every function, the decreasing call budget
+	firstCount  = 5 // @v5…: loop counters, one per WHILE statement
+	poolFns     = 4
+	maxDepth    = 6
+	fuel        = 200000
 )
 
 func vname(x int) string { return "@v" + strconv.Itoa(x) }
 func fname(f int) string { return "fn" + strconv.Itoa(f) }
 func tname(t int) string { return "t" + strconv.Itoa(t) }
+func cname(c int) string { return "cr" + strconv.Itoa(c) }
 
 // ---- model encoding
 
@@ -152,6 +157,12 @@ func (s *Stmt) enc(b *strings.Builder) {
 		b.WriteString(" W")
 		s.E.enc(b)
 		encBlock(b, s.Body)
+	case 'C':
+		fmt.Fprintf(b, " D%d i%d", cursorVar+s.Cur, -10*s.Rows-1)
+	case 'O', 'S':
+		fmt.Fprintf(b, " %c%d", s.K, cursorVar+s.Cur)
+	case 'H':
+		fmt.Fprintf(b, " H%d v%d", cursorVar+s.Cur, s.X)
 	case 'V':
 		fmt.Fprintf(b, " T%d", tableVar+s.X)
 	case 'N':
@@ -315,6 +326,14 @@ func (s *Stmt) sql(b *strings.Builder) {
 		b.WriteString(" DO ")
 		sqlBlock(b, s.Body)
 		b.WriteString("END WHILE;")
+	case 'C':
+		fmt.Fprintf(b, "DECLARE %s CURSOR FOR SELECT (c1 + %d) FROM tq WHERE c1 < 3 ORDER BY c1;", cname(s.Cur), 10*s.Rows)
+	case 'O':
+		b.WriteString("OPEN " + cname(s.Cur) + ";")
+	case 'S':
+		b.WriteString("CLOSE " + cname(s.Cur) + ";")
+	case 'H':
+		b.WriteString("FETCH " + cname(s.Cur) + " INTO " + vname(s.X) + ";")
 	case 'V':
 		b.WriteString("DECLARE " + tname(s.X) + " VIEW (c1);")
 	case 'N':
@@ -425,15 +444,18 @@ type genCtx struct {
 	fns       map[int][2]int // functions probably visible: (required, total) parameters beyond the budget parameter
 	fdeclared map[int]bool   // functions declared in the block being generated
 	tvisible  map[int]bool   // temporary tables probably visible here
+	cvisible  map[int]bool   // cursors (with state) probably visible here
+	cdeclared map[int]bool   // cursors declared in the block being generated
 }
 
 type pgen struct {
-	g        *hc.Gen
-	budget   int // statements left
-	nextCnt  int
-	maxDepth int
-	kinds    map[byte]int
-	fns      []*Stmt
+	cursorSeq int
+	g         *hc.Gen
+	budget    int // statements left
+	nextCnt   int
+	maxDepth  int
+	kinds     map[byte]int
+	fns       []*Stmt
 }
 
 func (c genCtx) child() genCtx {
@@ -449,8 +471,12 @@ func (c genCtx) child() genCtx {
 	for k := range c.tvisible {
 		t[k] = true
 	}
-	c.visible, c.fns, c.tvisible = v, f, t
-	c.declared, c.fdeclared = map[int]bool{}, map[int]bool{}
+	cv := map[int]bool{}
+	for k := range c.cvisible {
+		cv[k] = true
+	}
+	c.visible, c.fns, c.tvisible, c.cvisible = v, f, t, cv
+	c.declared, c.fdeclared, c.cdeclared = map[int]bool{}, map[int]bool{}, map[int]bool{}
 	c.depth++
 	return c
 }
@@ -598,8 +624,54 @@ func (p *pgen) stmt(c genCtx) []*Stmt {
 		}
 		p.note('X', c)
 		return []*Stmt{{K: 'X', X: x}}
-	case r < 39:
+	case r < 35+1:
 		break // PRINT below
+	case r < 39:
+		// cursors with state: declared (closed) in this block — often with the name of a visible outer one —, opened,
+		// fetched from and closed at every state, from here and from deeper blocks and invocations
+		k := p.g.Intn(poolCursors)
+		vis := sortedKeys(c.cvisible)
+		if len(vis) == 0 && p.g.Intn(3) == 0 {
+			break
+		}
+		if len(vis) > 0 && p.g.Intn(100) < 95 {
+			k = vis[p.g.Intn(len(vis))]
+		}
+		q := p.g.Intn(20)
+		if len(vis) == 0 || (!c.cdeclared[k] && q < 5) || q < 1 {
+			// a declaration: in a block below the one of a visible cursor of the same name it shadows that one
+			p.cursorSeq++
+			st := []*Stmt{{K: 'C', Cur: k, Rows: p.cursorSeq % 10}}
+			p.note('C', c)
+			inner := c.cvisible[k] && !c.cdeclared[k]
+			c.cvisible[k], c.cdeclared[k] = true, true
+			switch p.g.Intn(6) {
+			case 0: // fetch while it has never been opened
+				st = append(st, &Stmt{K: 'H', Cur: k, X: p.pickVar(c)})
+			case 1: // opened, fetched from, closed, fetched from again
+				st = append(st, &Stmt{K: 'O', Cur: k}, &Stmt{K: 'H', Cur: k, X: p.pickVar(c)}, &Stmt{K: 'S', Cur: k}, &Stmt{K: 'H', Cur: k, X: p.pickVar(c)})
+			case 2, 3:
+				st = append(st, &Stmt{K: 'O', Cur: k})
+				if p.g.Intn(2) == 0 {
+					st = append(st, &Stmt{K: 'H', Cur: k, X: p.pickVar(c)})
+				}
+			}
+			if inner {
+				p.kinds['s']++ // a cursor declared below a visible one of the same name
+			}
+			return st
+		}
+		switch {
+		case q < 8:
+			p.note('O', c)
+			return []*Stmt{{K: 'O', Cur: k}}
+		case q < 11:
+			p.note('S', c)
+			return []*Stmt{{K: 'S', Cur: k}}
+		}
+		p.note('H', c)
+		x := p.pickVar(c)
+		return []*Stmt{{K: 'H', Cur: k, X: x}, {K: 'P', E: vr(x)}}
 	case r < 45:
 		// temporary tables: declared in this block, changed and read from any depth below it
 		t := p.g.Intn(poolTables)
@@ -876,7 +948,7 @@ func newPgen(g *hc.Gen) *pgen {
 }
 
 func topCtx(noDisp bool) genCtx {
-	return genCtx{visible: map[int]bool{}, declared: map[int]bool{}, fns: map[int][2]int{}, fdeclared: map[int]bool{}, tvisible: map[int]bool{}, noDisp: noDisp}
+	return genCtx{visible: map[int]bool{}, declared: map[int]bool{}, fns: map[int][2]int{}, fdeclared: map[int]bool{}, tvisible: map[int]bool{}, cvisible: map[int]bool{}, cdeclared: map[int]bool{}, noDisp: noDisp}
 }
 
 func (p *pgen) program(c genCtx) []*Stmt {
@@ -972,6 +1044,18 @@ func scopeState(rs *query.ReferenceScope) (string, string) {
 		b.Variables.Range(func(key, val interface{}) bool {
 			k := idxOf(key.(string), "v")
 			l = append(l, kv{k, fmt.Sprintf("%d=%s", k, canonVal(val.(value.Primary)))})
+			return true
+		})
+		b.Cursors.Range(func(key, val interface{}) bool {
+			if k := idxOf(key.(string), "cr"); k < poolCursors { // the cursors with state, not the ones of WHILE IN loops
+				cur := val.(*query.Cursor)
+				st := "C"
+				if cur.IsOpen() == ternary.TRUE {
+					ptr, _ := cur.Pointer()
+					st = fmt.Sprintf("O%d", ptr+1)
+				}
+				l = append(l, kv{cursorVar + k, fmt.Sprintf("%d=%s", cursorVar+k, st)})
+			}
 			return true
 		})
 		b.TemporaryTables.Range(func(key, val interface{}) bool {
@@ -1120,6 +1204,12 @@ func execPatched(pr *hc.Proc, sql string, my []*Stmt, skip int) result {
 			// a table that is not declared ("file t0 does not exist" from INSERT / DELETE / SELECT, "view t0 is
 			// undeclared" from DISPOSE VIEW): the model's tables are variables, its answer is "undeclared variable"
 			r.flow = fmt.Sprintf("E%d", query.ErrorUndeclaredVariable)
+		}
+		switch r.code { // cursors are variables in the model too
+		case query.ErrorUndeclaredCursor:
+			r.flow = fmt.Sprintf("E%d", query.ErrorUndeclaredVariable)
+		case query.ErrorCursorRedeclared:
+			r.flow = fmt.Sprintf("E%d", query.ErrorVariableRedeclared)
 		}
 	} else {
 		r.flow = flowName[flow]
@@ -1369,6 +1459,33 @@ func lawsObjects(g *hc.Gen, o *hc.Out) {
 		if got := joinOr(r.out, "-"); r.code != 0 || got != stt.want {
 			report(o, "inner_change_reaches_declaring_block_"+stt.name, lawCase{"inner_change_reaches_declaring_block_" + stt.name,
 				[]string{sql}, r.flow + " " + got, "N " + stt.want})
+		}
+		pr.Close()
+	}
+	// 5. cursors: the innermost declaration of the name decides, whatever its state — a fetch from an inner cursor
+	//    that is closed fails with "cursor is closed" and does not touch an open outer cursor of the same name
+	type closedCase struct{ name, inner string }
+	closedCases := []closedCase{
+		{"never_opened", "DECLARE cz CURSOR FOR SELECT 7; FETCH cz INTO @r; PRINT @r;"},
+		{"closed_again", "DECLARE cz CURSOR FOR SELECT 7 UNION ALL SELECT 8; OPEN cz; FETCH cz INTO @r; CLOSE cz; FETCH cz INTO @r; PRINT @r;"},
+		{"while_in", "DECLARE cz CURSOR FOR SELECT 7; WHILE @r IN cz DO PRINT @r; END WHILE;"},
+		{"recursive_invocation", "DECLARE rz FUNCTION (@n) AS BEGIN DECLARE cz CURSOR FOR SELECT 7 UNION ALL SELECT 8; " +
+			"IF 0 < @n THEN OPEN cz; FETCH cz INTO @r; RETURN rz(@n - 1); END IF; FETCH cz INTO @r; PRINT @r; RETURN 0; END; VAR @q := rz(2);"},
+	}
+	cc := closedCases[g.Intn(len(closedCases))]
+	{
+		pr := newProc()
+		body, kinds := wrap(g, indirect(g, o, cc.inner, &id), 1+g.Intn(3), &id)
+		outer := "VAR @r; DECLARE cz CURSOR FOR SELECT 1 UNION ALL SELECT 2 UNION ALL SELECT 3; OPEN cz;"
+		r0 := exec(pr, outer)
+		r1 := exec(pr, body)
+		r2 := exec(pr, "FETCH cz INTO @r; PRINT @r;")
+		o.Count("law:innermost_cursor_" + cc.name)
+		o.Count("law_wrap_innermost:" + kinds[0])
+		got := fmt.Sprintf("%s %s / %s %s", r1.flow, joinOr(r1.out, "-"), r2.flow, joinOr(r2.out, "-"))
+		if want := fmt.Sprintf("E%d - / N I1", query.ErrorCursorClosed); r0.code != 0 || got != want {
+			report(o, "innermost_cursor_decides_"+cc.name, lawCase{"innermost_cursor_decides_" + cc.name,
+				[]string{outer, body, "FETCH cz INTO @r; PRINT @r;"}, got, want})
 		}
 		pr.Close()
 	}
